@@ -261,23 +261,63 @@ def _small_binary(st, max_nodes):
     return all(is_bdd(x) and len(x) <= 1 + 3 * max_nodes for x in _binary_operands(st[1]))
 
 
-def engine_crosscheck(workdir, steps, limit=400, max_nodes=2000):
-    """Cross-checks the three extracted engines of the binary operators on a sample of this run's
-    fbin/bin/named steps: the reference engine (Model/Apply.v), the fast one (Model/ApplyFast.v, proved
-    equal in Proofs/ApplyFast.v) and the step-faithful explicit-stack machine (Model/ApplyStack.v, one step =
-    one iteration of the Rust loop, proved equal in Proofs/ApplyStack.v) are all forced on the same transcript
-    lines (BDD_ENGINE=slow|fast|stack) and must print identical results, equal to the normal run's model answer.
-    Operands above max_nodes nodes are left to the fast engine only."""
+# The other loops with a fast twin (driver/ops_core.ml `use_fast`): size-limited engine and dry run (Model/ApplyFast2.v), ternary
+# engine (Model/Apply3Fast.v), nested apply (Model/NestedFast.v).  BDD_ENGINE=fast forces the twin, slow/stack the reference.
+TWIN_FAMILIES = {
+    "limit": ("fbinlim", "binlim"),
+    "dry": ("dry", "drybin"),
+    "ternary": ("ite", "tern", "ftern"),
+    "nested": ("nested", "exists", "for_all", "bin_exists", "bin_for_all"),
+}
+TWIN_OPS = {op: fam for fam, ops in TWIN_FAMILIES.items() for op in ops}
+CROSS_DETAIL = {}
+
+
+def _twin_step(st, max_nodes):
+    """a step of one of the twin families whose Bdd operands all have at most max_nodes nodes and whose model answer
+    is a value (not a machinery marker)"""
+    if st[1][0] not in TWIN_OPS or st[2] == "SKIP":
+        return False
+    if isinstance(st[3], str) and st[3] not in ("N", "PANIC"):
+        return False
+    return all(len(x) <= 1 + 3 * max_nodes for x in st[1][1:] if is_bdd(x))
+
+
+def _twin_sample(steps, per_family, max_nodes):
+    """per family: the steps with the largest operands (served by the fast twin in the normal run) + an even spread"""
+    out = []
+    for fam in TWIN_FAMILIES:
+        cand = [s for s in steps if TWIN_OPS.get(s[1][0]) == fam and _twin_step(s, max_nodes)]
+        cand.sort(key=lambda s: -max([len(x) for x in s[1][1:] if is_bdd(x)] or [0]))
+        head = cand[:per_family // 4]
+        rest = cand[per_family // 4:]
+        stride = max(1, len(rest) // max(1, per_family - len(head)))
+        out += head + rest[::stride][:per_family - len(head)]
+    return out
+
+
+def engine_crosscheck(workdir, steps, limit=400, max_nodes=2000, twin_limit=100, twin_max_nodes=800):
+    """Cross-checks the extracted engines on a sample of this run's steps.  Binary operators (fbin/bin/named): the
+    reference engine (Model/Apply.v), the fast one (Model/ApplyFast.v, proved equal in Proofs/ApplyFast.v) and the
+    step-faithful explicit-stack machine (Model/ApplyStack.v, one step = one iteration of the Rust loop, proved equal in
+    Proofs/ApplyStack.v).  Size-limited operator, dry run, ternary operators and nested apply / quantifiers: the reference
+    definitions (Model/Apply.v, Model/Apply3.v, Model/Nested.v) and their fast twins (Model/ApplyFast2.v,
+    Model/Apply3Fast.v, Model/NestedFast.v; proved equal in Proofs/ApplyFast2.v, Proofs/Apply3Fast.v, Proofs/NestedFast.v).
+    All are forced on the same transcript lines (BDD_ENGINE=slow|fast|stack; for the twin families `stack` = reference) and
+    must print identical results, equal to the normal run's model answer.  Operands above max_nodes (twin families:
+    twin_max_nodes) nodes are left to the fast engines only."""
     import subprocess
     cand = [s for s in steps if _small_binary(s, max_nodes)]
-    if not cand:
+    twins = _twin_sample(steps, twin_limit, twin_max_nodes)
+    CROSS_DETAIL["engine_crosscheck_twin_families"] = {fam: sum(1 for s in twins if TWIN_OPS[s[1][0]] == fam) for fam in TWIN_FAMILIES}
+    if not cand and not twins:
         return 0, 0
     # the largest operands first (they are the ones served by the fast engine in the normal run), then an even spread
     cand.sort(key=lambda s: -max(len(x) for x in _binary_operands(s[1])))
     head = cand[:limit // 4]
     rest = cand[limit // 4:]
     stride = max(1, len(rest) // max(1, limit - len(head)))
-    sample = head + rest[::stride][:limit - len(head)]
+    sample = head + rest[::stride][:limit - len(head)] + twins
     tpath = os.path.join(workdir, "engine_tr.txt")
     with open(tpath, "w") as f:
         for (cid, call, impl, model, aux) in sample:
@@ -305,10 +345,111 @@ def engine_crosscheck(workdir, steps, limit=400, max_nodes=2000):
     return len(sample), agree
 
 
+def _coq_bdd(x):
+    return "[" + "; ".join("mkNode %d %d %d" % nd for nd in bdd_nodes(x)) + "]"
+
+
+def _coq_tab(t, ctor="op_of_table"):
+    return "(%s [" % ctor + "; ".join({"-": "None", "0": "Some false", "1": "Some true"}[c] for c in t[2:]) + "])"
+
+
+def _coq_ov(x):
+    return "None" if x == "N" else "(Some %s)" % x[1]
+
+
+def _coq_nlist(x):
+    return "[" + "; ".join(x[1:]) + "]"
+
+
+def vm_crosscheck_twins(workdir, steps, per_family=6, max_nodes=40):
+    """the same validation for the fast twins of the size-limited operator, the dry run, the ternary engine and the
+    nested apply: a sample of small steps of each family is re-evaluated with vm_compute inside coqc with the REFERENCE
+    definition and with the FAST twin; both must equal the extracted binary's answer"""
+    sample = []
+    for fam in TWIN_FAMILIES:
+        sample += [s for s in steps if TWIN_OPS.get(s[1][0]) == fam and _twin_step(s, max_nodes)][:per_family]
+    CROSS_DETAIL["vm_compute_crosscheck_twin_families"] = {fam: sum(1 for s in sample if TWIN_OPS[s[1][0]] == fam) for fam in TWIN_FAMILIES}
+    if not sample:
+        return 0, 0
+    lines = ["From Coq Require Import List NArith. Import ListNotations.",
+             "From BddVerif Require Import Model.Bdd Model.Apply Model.Ops Model.ApplyFast Model.ApplyFast2 Model.Apply3 Model.Apply3Fast Model.Nested Model.NestedFast.",
+             "Open Scope N_scope.",
+             "Definition tr (r : bdd) := map (fun n => (nvar n, nlow n, nhigh n)) r.",
+             "Definition showb (o : outcome bdd) : N * list (N * N * N) := match o with Ok r => (0, tr r) | Panic => (1, []) | OutOfFuel => (2, []) end.",
+             "Definition showl (o : outcome (option bdd)) : N * list (N * N * N) := match o with Ok (Some r) => (0, tr r) | Ok None => (3, []) | Panic => (1, []) | OutOfFuel => (2, []) end.",
+             "Definition showd (o : outcome (option (bool * N))) : N * list (N * N * N) := match o with Ok (Some (f, c)) => (0, [((if f then 1 else 0), c, 0)]) | Ok None => (3, []) | Panic => (1, []) | OutOfFuel => (2, []) end."]
+    for (cid, call, impl, model, aux) in sample:
+        op = call[0]
+        for sfx in ("", "_fast"):
+            if op in ("fbinlim", "binlim"):
+                lim, t = call[1], call[2]
+                fa, fb, fo, a, b = (call[3:8] if op == "fbinlim" else ["N", "N", "N"] + call[3:5])
+                e = "showl (fused_binary_flip_op_with_limit%s %s %s %s %s %s %s %s)" % (sfx, lim, _coq_bdd(a), _coq_bdd(b), _coq_ov(fa), _coq_ov(fb), _coq_ov(fo), _coq_tab(t))
+            elif op in ("dry", "drybin"):
+                lim, t = call[1], call[2]
+                fa, fb, fo, a, b = (call[3:8] if op == "dry" else ["N", "N", "N"] + call[3:5])
+                e = "showd (check_fused_binary_flip_op%s %s %s %s %s %s %s %s)" % (sfx, lim, _coq_bdd(a), _coq_bdd(b), _coq_ov(fa), _coq_ov(fb), _coq_ov(fo), _coq_tab(t))
+            elif op == "ite":
+                e = "showb (if_then_else_faithful%s %s %s %s)" % (sfx, _coq_bdd(call[1]), _coq_bdd(call[2]), _coq_bdd(call[3]))
+            elif op == "tern":
+                e = "showb (ternary_op_faithful%s %s %s %s %s)" % (sfx, _coq_bdd(call[2]), _coq_bdd(call[3]), _coq_bdd(call[4]), _coq_tab(call[1], "op3_of_table"))
+            elif op == "ftern":
+                e = "showb (fused_ternary_flip_op_faithful%s %s %s %s %s %s %s %s %s)" % (
+                    sfx, _coq_bdd(call[6]), _coq_bdd(call[7]), _coq_bdd(call[8]), _coq_ov(call[2]), _coq_ov(call[3]), _coq_ov(call[4]), _coq_ov(call[5]),
+                    _coq_tab(call[1], "op3_of_table"))
+            elif op in ("exists", "for_all"):
+                e = "showb (bdd_%s_faithful%s %s %s)" % (op, sfx, _coq_bdd(call[1]), _coq_nlist(call[2]))
+            elif op in ("bin_exists", "bin_for_all"):
+                e = "showb (binary_op_with_%s_faithful%s %s %s %s %s)" % (op[4:], sfx, _coq_bdd(call[2]), _coq_bdd(call[3]), _coq_tab(call[1]), _coq_nlist(call[4]))
+            else:   # nested
+                trig = "[" + "; ".join("true" if c == "1" else "false" for c in call[5][1:]) + "]"
+                e = "showb (nested_apply_faithful%s %s %s %s %s %s)" % (sfx, _coq_bdd(call[3]), _coq_bdd(call[4]), trig, _coq_tab(call[1]), _coq_tab(call[2]))
+            lines.append("Eval vm_compute in %s." % e)
+    path = os.path.join(workdir, "cases_twins.v")
+    open(path, "w").write("\n".join(lines) + "\n")
+    rc, out, err = run_cmd(["timeout", "600", "coqc", "-noglob", "-Q", COQ_DIR, "BddVerif", path], cwd=workdir, timeout=700)
+    if rc != 0:
+        raise RuntimeError("vm_compute cross-check (fast twins) failed to compile: " + (out + err)[-2000:])
+    vals = re.findall(r"=\s*\((\d+),\s*(\[.*?\])\)\s*:\s*N \* list", out, flags=re.S)
+    if len(vals) != 2 * len(sample):
+        raise RuntimeError("vm_compute cross-check (fast twins): %d answers for %d evaluations" % (len(vals), 2 * len(sample)))
+
+    def triples(v):
+        return [tuple(int(x) for x in re.findall(r"\d+", t)) for t in re.findall(r"\(([^()]*)\)", v)]
+
+    def want_of(model):
+        if model == "PANIC":
+            return (1, [])
+        if model == "FUEL":
+            return (2, [])
+        if model == "N":
+            return (3, [])
+        mb = unwrap_bdd(model)
+        if mb is not None:
+            return (0, bdd_nodes(mb))
+        if isinstance(model, list) and model[0] == "S" and isinstance(model[1], list) and model[1][0] == "P":
+            return (0, [(1 if model[1][1] == "T" else 0, int(model[1][2]), 0)])
+        return None
+
+    agree = 0
+    for i, (cid, call, impl, model, aux) in enumerate(sample):
+        want = want_of(model)
+        if want is not None and all((int(vals[2 * i + j][0]), triples(vals[2 * i + j][1])) == want for j in range(2)):
+            agree += 1
+    return len(sample), agree
+
+
 def vm_crosscheck(workdir, steps, limit=40):
     """Validates extraction against kernel evaluation: re-evaluates a sample of fbin/bin/named steps (small
     operands) with vm_compute inside coqc, with the reference engine, the fast engine and the explicit-stack
-    machine, and compares all three with the extracted binary's answers."""
+    machine, and compares all three with the extracted binary's answers; then the same for the fast twins of the
+    other loops (vm_crosscheck_twins)."""
+    n1, a1 = _vm_crosscheck_binary(workdir, steps, limit)
+    n2, a2 = vm_crosscheck_twins(workdir, steps)
+    return n1 + n2, a1 + a2
+
+
+def _vm_crosscheck_binary(workdir, steps, limit=40):
     sample = [s for s in steps if _small_binary(s, 300)][:limit]
     if not sample:
         return 0, 0
@@ -451,6 +592,7 @@ def finish(v, coq, t0, rule, exhaustive=False, extra=None, cross=(0, 0), engines
         "engine_crosscheck_engines": list(ENGINES),
         "notes": v.notes,
     }
+    cov.update(CROSS_DETAIL)
     if extra:
         cov.update(extra)
     ev = {
